@@ -209,30 +209,46 @@ Definition minimal (c : cstep) (rem : list cstep) : bool :=
 Definition drop (c : cstep) (rem : list cstep) : list cstep :=
   filter (fun d => negb (c_inv d =? c_inv c)%N) rem.
 
-Fixpoint lin (fuel : nat) (keys vals : list bytes) (e : env) (s : st) (rem : list cstep)
-  : option (list (iop * iout)) :=
+(** [b]: how many candidate steps the search may still try.  Without a bound a history
+    that has NO order costs the product of the orders of its phases (hours for four phases
+    of six operations); a history that has one is placed almost greedily (the largest
+    search seen on the unchanged store tried fewer than 400 candidates). *)
+Fixpoint lin (fuel : nat) (keys vals : list bytes) (e : env) (s : st) (rem : list cstep) (b : N)
+  : option (list (iop * iout)) * N :=
   match rem with
-  | [] => Some []
+  | [] => (Some [], b)
   | _ =>
     match fuel with
-    | O => None
+    | O => (None, b)
     | S f =>
-        fold_left (fun (found : option (list (iop * iout))) (c : cstep) =>
+        fold_left (fun (acc : option (list (iop * iout)) * N) (c : cstep) =>
+          let '(found, b1) := acc in
           match found with
-          | Some _ => found
+          | Some _ => acc
           | None =>
-              if minimal c rem then
+              if (b1 =? 0)%N then acc
+              else if minimal c rem then
                 match magree true keys vals e s (fst (fst c)) (snd (fst c)) with
-                | None => None
+                | None => (None, (b1 - 1)%N)
                 | Some (e', s') =>
-                    match lin f keys vals e' s' (drop c rem) with
-                    | Some tl => Some (fst c :: tl)
-                    | None => None
+                    match lin f keys vals e' s' (drop c rem) (b1 - 1)%N with
+                    | (Some tl, b2) => (Some (fst c :: tl), b2)
+                    | (None, b2) => (None, b2)
                     end
                 end
-              else None
-          end) rem None
+              else acc
+          end) rem (None, b)
     end
+  end.
+
+Definition lin_budget : N := 40000%N.
+
+(** candidates tried for a concurrent history (statistics only) *)
+Definition lin_cost (c : case) : N :=
+  match c with
+  | CSeq _ _ _ _ _ => 0%N
+  | CConc pfx keys vals steps =>
+      (lin_budget - snd (lin (length steps) keys vals env0 (st0 pfx) steps lin_budget))%N
   end.
 
 Definition crashed (io : iout) : bool :=
@@ -245,9 +261,10 @@ Definition check_case (c : case) : verdict :=
       if existsb (fun c => crashed (snd (fst c))) steps
       then (false, false, 0%N)         (* the store died under one of the requests in flight *)
       else
-      match lin (length steps) keys vals env0 (st0 pfx) steps with
+      match fst (lin (length steps) keys vals env0 (st0 pfx) steps lin_budget) with
       | Some order => seq_verdict pfx true keys vals order
-      | None => (false, true, 0%N)     (* no order explains the replies: the correspondence is broken *)
+      | None => (false, true, 0%N)     (* no order explains the replies (or none was found within
+                                          [lin_budget] candidates): the correspondence is broken *)
       end
   end.
 
